@@ -44,6 +44,19 @@ CLAIMED = {
                 "makes a symmetric drift of reader and writer visible.",
         "design": "4/C06",
     },
+    "C07": {
+        "rules": "R-TAINT (shift / product / raw-extent sinks), R-WHOCALLS, R-SEQ(container sizing), R-MUSTCALL, R-GUARD, R-SIB",
+        "text": "Static analysis of the map / saved-game reader: the file-supplied shift amount is refused at >= 32 before the "
+                "header helpers shift by it, the tile count is formed in 64 bits and refused above the helpers' 32-bit result, "
+                "the tile-group area is formed in 64 bits, and those helpers have no unguarded caller; every read is the "
+                "throwing kind, every unprefixed container is resized to its stored count before it is read, prefixed reads "
+                "refuse unsatisfiable sizes; the minimum-version check covers the header tag and both later tags (which must "
+                "equal it) on both entry points; name length and marker are checked; raw reads fit their buffers; both entry "
+                "points return the map made by ReadMapBeginning without storing into it. Necessary conditions of C07 on all "
+                "byte strings; general memory safety is not claimed.",
+        "note": "Declined: foreign-memory freedom in general, value equality of saved-game and map-file results, resource exhaustion.",
+        "design": "4/C07",
+    },
     "C08": {
         "rules": "R-SEQ, R-LAYOUT, R-NOPAD, R-MUSTCALL, R-TAINT(signed sinks), R-ORDER, R-ACCT(pitch law), R-NOWRAP, R-NARROW, R-INIT, R-WRITESET, R-SIB",
         "text": "Static analysis of the indexed-bitmap reader/writer: headers and palette are read and written in the same "
